@@ -452,9 +452,11 @@ package bgp
 //@   at-call exist(mandatory) requires len(mandatory) >= 2 && mandatory[0] == BGP_ATTR_TYPE_ORIGIN && mandatory[1] == BGP_ATTR_TYPE_AS_PATH
 //@   at-call exist(mandatory) requires len(m.NLRI) > 0 ==> len(mandatory) == 3 && mandatory[2] == BGP_ATTR_TYPE_NEXT_HOP
 //@ props C05
+// the body decoder is handed exactly the octets of the declared message, whatever follows them in the buffer
 //@ func parseBody
 //@   requires h != nil && len(data) <= 65535
 //@   modifies nothing
+//@   at-call msg.Body.DecodeFromBytes(data requires len(arg0) == int(h.Len) - BGP_HEADER_LENGTH
 //@ func ParseBGPMessage
 //@   modifies nothing
 
